@@ -849,7 +849,9 @@ class _Frame:
             if attr in ("reshape", "ravel", "flatten", "transpose", "copy", "sum", "mean", "tolist", "max", "min"):
                 return getattr(obj, attr)
             if attr == "astype":
-                return lambda *a, **k: obj
+                return lambda t=None, *a, **k: XArray(obj.shape, obj.data, _kind_of(t))
+            if attr == "dtype":
+                return obj.dtype if obj.dtype is not None else "f"
             if attr == "repeat":
                 return lambda repeats, axis=None: _np_repeat(obj, repeats, axis)
             if attr in ("integrate", "_ndim", "_shape", "dot", "ddot") and hasattr(obj, attr):
@@ -1102,10 +1104,31 @@ def exact_tree(v):
 # ---------------------------------------------------------------------------
 
 
+def _kind_of(dtype):
+    """'i' / 'f' / None for a dtype argument (python type, np.int64 ..., the .dtype of a modelled array)"""
+    if dtype is None:
+        return None
+    if dtype is int or (isinstance(dtype, _NpAttr) and dtype.path.startswith(("int", "uint"))) or dtype == "i":
+        return "i"
+    if dtype is float or (isinstance(dtype, _NpAttr) and dtype.path.startswith("float")) or dtype == "f":
+        return "f"
+    return None
+
+
+def _all_py_ints(o):
+    if isinstance(o, (list, tuple)):
+        return bool(o) and all(_all_py_ints(x) for x in o)
+    if isinstance(o, XArray):
+        return o.dtype == "i"
+    return isinstance(o, int) and not isinstance(o, bool)
+
+
 def _np_array(obj, dtype=None, **kw):
     if dtype is object and isinstance(obj, (list, tuple)):
         return XArray((len(obj),), [exact_tree(x) for x in obj])
+    kind = _kind_of(dtype) if dtype is not None else ("i" if _all_py_ints(obj) else None)
     a = XArray.from_nested(exact_tree(obj) if not isinstance(obj, XArray) else obj)
+    a.dtype = kind
     return a
 
 
@@ -1123,7 +1146,9 @@ def _np_sqrt(x):
 def _np_zeros(shape, dtype=None, **kw):
     if isinstance(shape, (int, Fraction)):
         shape = (int(shape),)
-    return XArray.full(tuple(int(s) for s in shape), Q(0))
+    a = XArray.full(tuple(int(s) for s in shape), Q(0))
+    a.dtype = _kind_of(dtype)
+    return a
 
 
 def _np_ones(shape, dtype=None, **kw):
@@ -1446,6 +1471,10 @@ _NP_FUNCS = {
     "diff": lambda a, **k: (lambda v: XArray((max(len(v) - 1, 0),), [v[i + 1] - v[i] for i in range(len(v) - 1)]))(list(XArray.from_nested(a).data)),
     "bincount": lambda x, weights=None, minlength=0: _np_bincount(x, weights, minlength),
     "flatnonzero": lambda a: _np_flatnonzero(a),
+    "max": lambda a, axis=None, **k: XArray.from_nested(a).max(axis),
+    "min": lambda a, axis=None, **k: XArray.from_nested(a).min(axis),
+    "amax": lambda a, axis=None, **k: XArray.from_nested(a).max(axis),
+    "amin": lambda a, axis=None, **k: XArray.from_nested(a).min(axis),
     "iscomplexobj": lambda a: False,
     "int64": lambda x=0: x,
     "int32": lambda x=0: x,
